@@ -19,7 +19,9 @@ RULE = ('programs: kernel family K (producer conv -> causally padded Conv1d with
         '<= cap states, otherwise every configuration within d single-element deviations of "all open" plus the all-minimum corners; '
         'non-trivial = a (program, configuration) pair with at least one pruned element')
 ASSUMPTIONS = ['"on every input" is decided on a seeded generic witness batch of 3 inputs (DESIGN.md A3)',
-               'binarisation abstraction A1: eval-mode forward/export depend on mask parameters only through the binarised theta',
+               'binarisation abstraction A1 (eval-mode forward/export depend on mask parameters only through the binarised theta) is '
+               'exercised rather than assumed: 4 real-valued representatives per abstract configuration ' + str(list(zip(D.PRUNED_REPS, D.KEPT_REPS))) +
+               ' (all four on family K when a time mask is pruned, rotating elsewhere)',
                'RF/dilation moves only on causally left-padded stride-1 Conv1d (scope of the statement)',
                'programs with the structures of findings D4/D5/D24 (cat->depthwise, excluded layers, cat + conv(cat)) are checked under C09']
 
@@ -76,14 +78,28 @@ def run_case(case, seed):
         cfgs, complete = [D.cfg_from_desc(els, case['cfg'])], False
     else:
         cfgs, complete = D.enum_configs(els, b['mask_deviation_bound'], b['complete_lattice_cap'])
-    for cfg in cfgs:
-        D.apply_config(els, cfg, rep=0, via_data=res['states'] % 2 == 1)
+    # abstraction A1 is itself exercised: every abstract configuration is realised with several real-valued representatives
+    # (exact 0/1, values just across the threshold, negative, huge) - all four for the kernel family K when a time mask is
+    # pruned, rotating otherwise
+    isK = prog.get('family') == 'K'
+    work = []
+    for n, cfg in enumerate(cfgs):
+        timed = any(els[i]['kind'] in ('rf', 'dil') for i in cfg)
+        if case.get('rep') is not None:
+            reps = [case['rep']]
+        elif isK and timed:
+            reps = [0, 1, 2, 3]
+        else:
+            reps = [n % 4]
+        work += [(cfg, r) for r in reps]
+    for cfg, rep in work:
+        D.apply_config(els, cfg, rep=rep, via_data=res['states'] % 2 == 1)
         res['states'] += 1
         res['transitions'] += len(cfg)
         res['evals'] += 1
         desc = D.describe(els, cfg)
         kinds = ''.join(sorted({els[i]['kind'][0] for i in cfg}))
-        vcase = dict(base_case, cfg=desc)
+        vcase = dict(base_case, cfg=desc, rep=rep)
         try:
             with torch.no_grad():
                 y_pit = pit(x)
@@ -93,7 +109,7 @@ def run_case(case, seed):
         except Exception as e:
             res['outcomes'].add('export-or-run-raises')
             res['violations'].append({'kind': 'export-or-run-raises', 'sig': f'export-or-run-raises/{kinds}/' + _shape_sig(prog, fold),
-                                      'msg': f'cfg={desc}: {type(e).__name__}: {str(e)[:300]}', 'case': vcase})
+                                      'msg': f'cfg={desc} rep={rep}: {type(e).__name__}: {str(e)[:300]}', 'case': vcase})
             continue
         ok, why = tol.out_close(y_pit, y_exp)
         if not ok:
@@ -110,16 +126,16 @@ def run_case(case, seed):
             except Exception:
                 pass
             res['violations'].append({'kind': 'output-differs', 'sig': sig,
-                                      'msg': f'cfg={desc}: PIT.eval()(x) vs export().eval()(x): {why}', 'case': vcase})
+                                      'msg': f'cfg={desc} rep={rep}: PIT.eval()(x) vs export().eval()(x): {why}', 'case': vcase})
         bad = D.struct_check(pit, exp, prog)
         if bad:
             res['outcomes'].add('structure-differs')
             res['violations'].append({'kind': 'structure-differs', 'sig': f'structure-differs/{kinds}/' + _shape_sig(prog, fold),
-                                      'msg': f'cfg={desc}: ' + '; '.join(bad[:4]), 'case': vcase})
+                                      'msg': f'cfg={desc} rep={rep}: ' + '; '.join(bad[:4]), 'case': vcase})
         if ok and not bad:
             res['outcomes'].add('equal' if cfg else 'equal-unpruned')
         if cfg:
-            res['nontrivial'].append(_key(prog, fold, desc))
+            res['nontrivial'].append(_key(prog, fold, [desc, rep]))
     res['outcomes'] = sorted(res['outcomes'])
     res['sample'] = {'prog': prog, 'fold_bn': fold, 'n_elements': len(els), 'n_configs': len(cfgs), 'complete_lattice': complete,
                      'last_cfg': D.describe(els, cfgs[-1])}
